@@ -127,7 +127,7 @@ def pick(c, k: int) -> int:
 
 def sel_atom(tag: int, n: int, c0: int, c1: int, c2: int, alpha: str, c3: int = 0):
     """Selector-built concrete atom for C-boundary loaders:
-    tag 0 None | 1 bool | 2 int in [-3, 3] and +-10**400 | 3 float from FLOAT_POOL | 4 str over alpha, len n<=3 | 5 bytes len<=1.
+    tag 0 None | 1 bool | 2 int in [-3, 3], +-10**400 and +-10**5000 | 3 float from FLOAT_POOL | 4 str over alpha, len n<=3 | 5 bytes len<=1.
     Callers constrain 0<=tag<=5, 0<=n<=3, 0<=ci<len(alpha) (alpha has at least 9 characters)."""
     tag = pick(tag, 6)
     if tag == 0:
@@ -137,9 +137,9 @@ def sel_atom(tag: int, n: int, c0: int, c1: int, c2: int, alpha: str, c3: int = 
     if tag == 2:
         c0 = pick(c0, len(alpha)) % 9
         if c0 == 7:
-            return 10 ** 400
+            return 10 ** 5000 if c1 == 1 else 10 ** 400         # 10**5000: also beyond the int -> str conversion limit
         if c0 == 8:
-            return -(10 ** 400)
+            return -(10 ** 5000) if c1 == 1 else -(10 ** 400)
         return c0 - 3
     if tag == 3:
         return FLOAT_POOL[pick(c0, len(alpha)) % len(FLOAT_POOL)]
